@@ -12,6 +12,8 @@
  *   bf <ip16> <v4flag> <file>  lookupipbl(fd of a real temp file) with xmitstat.ipv4conn = v4flag            -> R <n>
  *   c0/c1/c2/c3 <content>   lloadfilefd(fd of a real temp file, &buf, 0..3)    -> R <len> <buf bytes> | E <class>
  *   c4 <content>            loadlistfd(fd, &bufa, NULL)                        -> R <n> <entry>...     | E <class>
+*   c7 <content> <rej>      loadlistfd(fd, &bufa, cf) with cf(s) = first byte of s or strlen(s) occurs in <rej>
+ *                           (<rej> = "-": cf = NULL)        -> R <n> {<offset of bufa[i] from bufa> <entry>}... | E <class>
  *   c5 <content>            loadintfd(fd, &v, 4242)                            -> R <decimal v>         | E <class>
  *   c6 <content>            loadonelinerfd(fd, &buf)                           -> R <len> <buf>         | E <class>
  * A sanitizer abort or a fault on the guard page is reported as CRASH by hcommon.h.
@@ -38,6 +40,16 @@ void log_writen(int p, const char **s) { (void)p; (void)s; }
 int data_pending(SSL *s) { (void)s; abort(); }
 int ask_dnsa(const char *n, struct in6_addr **r) { (void)n; (void)r; abort(); }
 int dnstxt(char **t, const char *n) { (void)t; (void)n; abort(); }
+
+_Static_assert(sizeof(char **) == 8, "model: PTR_SIZE");
+static const unsigned char *cf_rej; static size_t cf_nrej;
+static int h_cf(const char *s)
+{
+	size_t l = strlen(s);
+	for (size_t i = 0; i < cf_nrej; i++)
+		if (cf_rej[i] == (unsigned char)s[0] || cf_rej[i] == l) return 1;
+	return 0;
+}
 
 static const char *eclass(int e)
 {
@@ -142,6 +154,23 @@ static void run_case(int nf, struct field *f)
 			if (bufa) while (bufa[n]) n++;
 			out_str("R "); out_int((long)n);
 			for (size_t i = 0; i < n; i++) { out_str(" "); out_hex(bufa[i], strlen(bufa[i])); }
+			free(bufa);
+		}
+	} else if (op == 0xc7 && nf == 3) {
+		int fd = tmpfd(f[1].p, f[1].len);
+		char **bufa = (char **)1;
+		cf_rej = f[2].p; cf_nrej = f[2].len;
+		errno = 0;
+		int r = loadlistfd(fd, &bufa, f[2].len ? h_cf : NULL);
+		if (r != 0) { out_str("E "); out_str(eclass(errno)); }
+		else {
+			size_t n = 0;
+			if (bufa) while (bufa[n]) n++;
+			out_str("R "); out_int((long)n);
+			for (size_t i = 0; i < n; i++) {
+				out_str(" "); out_int((long)(bufa[i] - (char *)bufa));
+				out_str(" "); out_hex(bufa[i], strlen(bufa[i]));
+			}
 			free(bufa);
 		}
 	} else if (op == 0xc5 && nf == 2) {
